@@ -113,6 +113,7 @@ func (u *unitCtx) function(n ast.Node, fn *types.Func) *fnInfo {
 		ptypes = append(ptypes, u.leanType(fd, p.Type()))
 	}
 
+	c.params = pobjs
 	// pre-scan: which pointer parameters are written through; which error results are always nil
 	asg := assignedRoots(u.p.info, fd.Body)
 	ast.Inspect(fd.Body, func(n ast.Node) bool {
@@ -141,6 +142,15 @@ func (u *unitCtx) function(n ast.Node, fn *types.Func) *fnInfo {
 		case *ast.IncDecStmt:
 			mark(s.X)
 		case *ast.CallExpr:
+			if id, ok := unparen(s.Fun).(*ast.Ident); ok && id.Name == "copy" && len(s.Args) == 2 {
+				if _, isb := u.p.info.Uses[id].(*types.Builtin); isb {
+					dst := unparen(s.Args[0]) // copy(dst, src) writes the elements of dst
+					if se, ok := dst.(*ast.SliceExpr); ok {
+						dst = se.X
+					}
+					mark(&ast.IndexExpr{X: dst}) // an element of dst is written
+				}
+			}
 			// a callee of this package that writes through a pointer parameter we pass on
 			tmp := &fnCtx{u: u, info: u.p.info}
 			if cal, recv := tmp.callee(s); cal != nil && cal.Pkg() == u.p.pkg {
@@ -269,9 +279,20 @@ func (u *unitCtx) function(n ast.Node, fn *types.Func) *fnInfo {
 		}
 	}
 	b.WriteString(" -/\n")
+	if len(c.hidden) > 0 {
+		b.Reset()
+		fmt.Fprintf(&b, "/-- Go (%s): `%s`\n  the trailing parameters are HIDDEN STATE: what the backing arrays of the slices whose capacity the code looks at\n  hold between length and capacity (notes/go2lean.md \"Capacity\"); result:", relFile(u, fd), sigText(u.l.fset, fd))
+		for _, m := range c.muts {
+			fmt.Fprintf(&b, " new *%s,", m.Name())
+		}
+		b.WriteString(" the Go results -/\n")
+	}
 	fmt.Fprintf(&b, "def %s", name)
 	for i := range pnames {
 		fmt.Fprintf(&b, " (%s : %s)", pnames[i], ptypes[i])
+	}
+	for _, h := range c.hidden {
+		fmt.Fprintf(&b, " %s", h)
 	}
 	switch {
 	case single != "" && !c.partial:
@@ -284,7 +305,7 @@ func (u *unitCtx) function(n ast.Node, fn *types.Func) *fnInfo {
 		fmt.Fprintf(&b, " : %s := Id.run do\n%s\n", rtype, strings.Join(c.lines, "\n"))
 	}
 	u.out = append(u.out, b.String())
-	fi := &fnInfo{name: name, partial: c.partial, mutPtrs: mutIdx, nres: nres}
+	fi := &fnInfo{name: name, partial: c.partial, mutPtrs: mutIdx, nres: nres, hidden: c.hiddenType}
 	u.done[fn] = fi
 	return fi
 }
@@ -434,10 +455,10 @@ func (u *unitCtx) blockItem(it Item) {
 		c.stmt(1, h.list[h.idx])
 	}
 	lo, hi := h.idx, h.idx
-	for lo > 0 && try(h.list[lo-1]) {
+	for !it.Solo && lo > 0 && try(h.list[lo-1]) {
 		lo--
 	}
-	for hi+1 < len(h.list) && try(h.list[hi+1]) {
+	for !it.Solo && hi+1 < len(h.list) && try(h.list[hi+1]) {
 		hi++
 	}
 	run := h.list[lo : hi+1]
@@ -465,6 +486,7 @@ func (u *unitCtx) blockItem(it Item) {
 			outs = append(outs, fv.name)
 		}
 	}
+	params = append(params, c.hidden...) // hidden tails of the slices whose capacity the run looks at ("Capacity")
 	// locals declared in the run and still in scope at its end (declared at the top level of the run)
 	var locals []string
 	for _, s := range run {
@@ -579,12 +601,16 @@ func (u *unitCtx) condItem(it Item) {
 		if is, ok := n.(*ast.IfStmt); ok && strings.Contains(exprText(u.l.fset, is.Cond), it.Anchor) {
 			hits = append(hits, is.Cond)
 		}
+		// the condition of a `for cond { … }` loop (the loop itself stays outside the subset: only its test is taken)
+		if fs, ok := n.(*ast.ForStmt); ok && fs.Cond != nil && strings.Contains(exprText(u.l.fset, fs.Cond), it.Anchor) {
+			hits = append(hits, fs.Cond)
+		}
 		return true
 	})
 	var cond ast.Expr
 	switch {
 	case len(hits) == 0:
-		u.fail(fd, "cond %s: no if condition of %s mentions %q (anchor not found)", it.Name, it.Func, it.Anchor)
+		u.fail(fd, "cond %s: no if / for condition of %s mentions %q (anchor not found)", it.Name, it.Func, it.Anchor)
 	case it.Occur == 0 && len(hits) != 1:
 		u.fail(fd, "cond %s: %d if conditions of %s mention %q, expected exactly one", it.Name, len(hits), it.Func, it.Anchor)
 	case it.Occur > len(hits):
@@ -607,6 +633,7 @@ func (u *unitCtx) condItem(it Item) {
 	for _, k := range keys {
 		params = append(params, fmt.Sprintf("(%s : %s)", c.flats[k].name, u.leanType(fd, c.flats[k].typ)))
 	}
+	params = append(params, c.hidden...)
 	var b strings.Builder
 	fmt.Fprintf(&b, "/-- Go (%s, inside `%s`): the condition `if %s` -/\n", relFile(u, fd), it.Func,
 		strings.ReplaceAll(exprText(u.l.fset, cond), "-/", "- /"))
@@ -667,6 +694,20 @@ func assignsTo(u *unitCtx, s ast.Stmt, anchor string) bool {
 		}
 	case *ast.IncDecStmt:
 		return norm(a.X) == anchor
+	case *ast.DeclStmt:
+		// `var ( … x = e … )` declares x and assigns e to it (a declaration without an initial value is not an anchor)
+		if gd, ok := a.Decl.(*ast.GenDecl); ok && gd.Tok == token.VAR {
+			for _, sp := range gd.Specs {
+				if len(sp.(*ast.ValueSpec).Values) == 0 {
+					continue
+				}
+				for _, nm := range sp.(*ast.ValueSpec).Names {
+					if nm.Name == anchor {
+						return true
+					}
+				}
+			}
+		}
 	}
 	return false
 }
@@ -762,6 +803,8 @@ func translateUnit(l *loader, unit *Unit) (text string, err error) {
 			u.out = append(u.out, fmt.Sprintf("/-- Go: `const %s` (type %s; value computed by go/types) -/\ndef %s : %s := %s\n", it.Name, cn.Type(), leanIdent(it.Name), lt, v))
 		case "cond":
 			u.condItem(it)
+		case "arg", "slice", "loopcond":
+			u.exprItem(it)
 		case "methodset":
 			// every method of the named type must be listed (and exist): a new method is code that reaches the state
 			// without being translated, so the tie would silently cover less than it says
@@ -793,6 +836,14 @@ func translateUnit(l *loader, unit *Unit) (text string, err error) {
 	fmt.Fprintf(&b, "-- GENERATED by translators/go2lean from the current source of %s/%s — do not edit.\n", "/repo", unit.Dir)
 	b.WriteString("-- Subset, representation and what is trusted: notes/go2lean.md. Agreement theorems: FitProps/*Go2Lean*.lean.\n")
 	b.WriteString("import FitModel.GoPrelude\n")
+	var imps []string
+	for k := range u.imports {
+		imps = append(imps, k)
+	}
+	sort.Strings(imps)
+	for _, k := range imps {
+		fmt.Fprintf(&b, "import FitModel.Generated.Go_%s\n", k)
+	}
 	b.WriteString("set_option linter.unusedVariables false\n")
 	fmt.Fprintf(&b, "namespace Go.%s\n\n", unit.Name)
 	for _, o := range u.out {
@@ -826,11 +877,6 @@ func main() {
 		os.Exit(2)
 	}
 	repo, outdir := os.Args[1], os.Args[2]
-	l, err := newLoader(repo)
-	if err != nil {
-		fmt.Fprintln(os.Stderr, "go2lean:", err)
-		os.Exit(1)
-	}
 	status := 0
 	for _, name := range os.Args[3:] {
 		var unit *Unit
@@ -844,6 +890,13 @@ func main() {
 			os.Exit(2)
 		}
 		out := filepath.Join(outdir, "Go_"+unit.Name+".lean")
+		// a loader of its own for every unit: a package imported (without bodies) while an earlier unit was translated and
+		// type-checked again (with bodies) for this one would exist twice, and its types would no longer be identical
+		l, err := newLoader(repo)
+		if err != nil {
+			fmt.Fprintln(os.Stderr, "go2lean:", err)
+			os.Exit(1)
+		}
 		text, err := translateUnit(l, unit)
 		if err != nil {
 			fmt.Fprintf(os.Stderr, "go2lean: unit %s: %v\n", name, err)
